@@ -89,7 +89,8 @@ class C17(Check):
         out = []
         for i in range(120 if self.tier == "quick" else 1500):
             cats = []
-            types = rng.sample([10, 20, 30, 40, 41, 50, 51, 60, 70, 0x800, 5, 1], rng.randint(0, 6))
+            # standard types and vendor specific ones (bit 15 set), also ones that differ from a standard type only in bit 15
+            types = rng.sample([10, 20, 30, 40, 41, 50, 51, 60, 70, 0x800, 5, 1, 0x8029, 0x8032, 0x8033, 0x9000, 0xfffe, 0x8001, 0x800a], rng.randint(0, 7))
             for ty in types:
                 if ty == 41:
                     sms = [(rng.randrange(0x1000, 0x2000), rng.choice([0, 2, 128, rng.randrange(300)]),
@@ -259,7 +260,7 @@ class C17(Check):
         return out
 
     def rule(self):
-        return ("random SII images: 0-6 categories with distinct random types (10% with a duplicate), random even lengths and contents, sync-manager categories "
+        return ("random SII images: 0-7 categories with distinct standard and vendor-specific types (bit 15 set, some equal to a standard type but for that bit; 10% with a duplicate), random even lengths and contents, sync-manager categories "
                 "with random entries/control bytes, PDO categories with bit/byte/gap entries (85% byte-aligned), random identity, garbage after the end marker, "
                 "5% truncated images; 4- and 8-byte EEPROM reads; busy for 0-3 polls; non-trivial = at least two categories decoded")
 
